@@ -1339,6 +1339,43 @@ def site_rewrite(ctx, sf, it, rule, anchor, nth, ropts, what):
                 depth_k = pair[depth_k] + 1 if toks[depth_k].text in ("(", "[", "{") else depth_k + 1
             end = toks[depth_k].end
         call = ropts["call"].replace("~", " ")
+        if "$" in call:
+            # argument capture: $1..$9 stand for the source text of the arguments of a call inside the replaced region, so that
+            # the stub sees the expressions the code really passes (and a change to them is visible to the verifier).
+            # capture=NAME picks the call `NAME(..)`; by default the first `(` at or after the last token of the anchor.
+            hi_tok = b
+            while hi_tok < len(toks) and toks[hi_tok].start < end:
+                hi_tok += 1
+            g = None
+            cap = ropts.get("capture")
+            if cap:
+                for q_ in range(a, hi_tok):
+                    if toks[q_].text == cap and toks[q_ + 1].text == "(":
+                        g = q_ + 1
+                        break
+            else:
+                for q_ in range(max(a, b - 1), hi_tok):
+                    if toks[q_].text == "(":
+                        g = q_
+                        break
+            if g is None:
+                raise LostAnchor(f"{what}: O1 argument capture: no call found in {anchor!r}")
+            gc = pair[g]
+            args_, cur_, q_ = [], g + 1, g + 1
+            while q_ < gc:
+                if toks[q_].text in ("(", "[", "{"):
+                    q_ = pair[q_] + 1
+                    continue
+                if toks[q_].text == ",":
+                    args_.append(sf.text[toks[cur_].start:toks[q_ - 1].end])
+                    cur_ = q_ + 1
+                q_ += 1
+            if cur_ < gc:
+                args_.append(sf.text[toks[cur_].start:toks[gc - 1].end])
+            for n_ in range(len(args_), 0, -1):
+                call = call.replace(f"${n_}", " ".join(args_[n_ - 1].split()))
+            if re.search(r"\$\d", call):
+                raise LostAnchor(f"{what}: O1 argument capture: the call in {anchor!r} has {len(args_)} arguments")
         edits.append(Edit(s, end, call + (";" if (end != e or toks[b - 1].text == ";") else "")))
         ctx.fire("O1", sf, s, f"opaque statement -> {call}")
     elif rule == "N12L":
